@@ -72,6 +72,34 @@ def err_variants(t):
     return out
 
 
+def templates(chk, wit):
+    evw = sym.Evaluator(wit)
+    ref = evw.eval_fn(W + "key_templates", [P("a"), P("b"), P("c"), P("n")])
+    T = [x[1] if x[0] == "fmt" else None for x in (ref[1] if ref[0] == "array" else ())]
+    chk.ob("R-TEMPLATE", "witness", len(T) == 6 and all(T), "six reference templates decoded from the witness crate", key="reference-templates")
+    if len(T) != 6 or not all(T):
+        return None
+    return T
+
+
+def realtime_download(chk, prog, T3):
+    """download_chunk: the key requested, and the (identifier, chunk) pair returned"""
+    t, f, ev = safe_body(chk, prog, DC, [DO, CHUNK_NEW])
+    if t is not None:
+        w = f.where()
+        site, cid = P("site"), P("chunk_id")
+        key = ("fmt", T3, (("disp", site), ("disp", fld(fld(cid, "volume"), "0")), ("disp", fld(cid, "name"))))
+        req = call(DO, C(REALTIME, "&str"), key)
+        aw = uniq(awaited(t, DO))
+        expect_c(chk, "R-TEMPLATE", DC, aw[0][1] if len(aw) == 1 else ("awaits", len(aw)), req, w, "requests key {site}/{volume}/{name} from bucket %s" % REALTIME, key="request")
+        res = ("vfld", ("await", req), "Ok", "0")
+        ch = call(CHUNK_NEW, fld(res, "data"))
+        want = ok(("tuple", (adt(CI, "ChunkIdentifier", (("site", site), ("volume", fld(cid, "volume")), ("name", fld(cid, "name")),
+                                                       ("date_time", fld(fld(res, "metadata"), "last_modified")))), ("vfld", ch, "Ok", "0"))))
+        oks = leaves_ok(t)
+        expect_c(chk, "R-WIRE", DC, oks[0][1] if len(oks) == 1 else ("oks", len(oks)), want, w, "returns the identifier asked for stamped with the object's Last-Modified, and the chunk built from the downloaded bytes", key="payload")
+
+
 def run(chk, tier):
     prog, info = common.program("all")
     common.note_extraction(chk, info, prog)
@@ -86,11 +114,8 @@ def run(chk, tier):
                        "the 4 separators of its key template) and stamped with the object's last_modified; in the XML loop an object is pushed exactly at "
                        "</Contents>; R-PANIC over the seven functions.")
     chk.trust("await model; reqwest/xml-rs/chrono parsers behave as documented; iterator adaptors map/collect preserve order")
-    evw = sym.Evaluator(wit)
-    ref = evw.eval_fn(W + "key_templates", [P("a"), P("b"), P("c"), P("n")])
-    T = [x[1] if x[0] == "fmt" else None for x in (ref[1] if ref[0] == "array" else ())]
-    chk.ob("R-TEMPLATE", "witness", len(T) == 6 and all(T), "six reference templates decoded from the witness crate", key="reference-templates")
-    if len(T) != 6 or not all(T):
+    T = templates(chk, wit)
+    if T is None:
         return
     T3, T2, T2S, TGET, TLIST, TMAX = T
     download_object(chk, prog, TGET)
@@ -149,21 +174,7 @@ def run(chk, tier):
         want = ("seq", fld(res, "objects"), (), adt(CI, "ChunkIdentifier", (("site", site), ("volume", vol), ("name", nm), ("date_time", fld(sym.ELEM, "last_modified")))))
         got = oks[0][1][3][0][1] if len(oks) == 1 else ("oks", len(oks))
         expect_c(chk, "R-WIRE", LC, sym.prune(got), sym.prune(want), w, "one identifier per object, in order: requested site and volume, the key's last segment, the object's last_modified", key="identifiers")
-    # ---- real-time download
-    t, f, ev = safe_body(chk, prog, DC, [DO, CHUNK_NEW])
-    if t is not None:
-        w = f.where()
-        site, cid = P("site"), P("chunk_id")
-        key = ("fmt", T3, (("disp", site), ("disp", fld(fld(cid, "volume"), "0")), ("disp", fld(cid, "name"))))
-        req = call(DO, C(REALTIME, "&str"), key)
-        aw = uniq(awaited(t, DO))
-        expect_c(chk, "R-TEMPLATE", DC, aw[0][1] if len(aw) == 1 else ("awaits", len(aw)), req, w, "requests key {site}/{volume}/{name} from bucket %s" % REALTIME, key="request")
-        res = ("vfld", ("await", req), "Ok", "0")
-        ch = call(CHUNK_NEW, fld(res, "data"))
-        want = ok(("tuple", (adt(CI, "ChunkIdentifier", (("site", site), ("volume", fld(cid, "volume")), ("name", fld(cid, "name")),
-                                                       ("date_time", fld(fld(res, "metadata"), "last_modified")))), ("vfld", ch, "Ok", "0"))))
-        oks = leaves_ok(t)
-        expect_c(chk, "R-WIRE", DC, oks[0][1] if len(oks) == 1 else ("oks", len(oks)), want, w, "returns the identifier asked for stamped with the object's Last-Modified, and the chunk built from the downloaded bytes", key="payload")
+    realtime_download(chk, prog, T3)
     fns = [LO, DO, LF, DF, LC, DC]
     panics.check_no_panic(chk, prog, [p + "::{closure#0}" for p in fns] + fns + [GLM], "s3 client")
 
